@@ -818,9 +818,45 @@ func (h *supH) directedExit(emit func(string)) {
 	}
 }
 
+// directedStopThenShutdown: a shutdown that arrives while a process is already being stopped by
+// an earlier request and is still alive (it ignores the signal; the kill timer of the first stop
+// is armed). The shutdown may return only after the command is gone.
+func (h *supH) directedStopThenShutdown(emit func(string)) {
+	for _, first := range []string{"stop", "restart"} {
+		for _, ordered := range []int{0, 1} {
+			emit(fmt.Sprintf("sup coarse %d", ordered))
+			emit("proc a no 0 - 40 0 ign -")
+			emit("proc b no 0 - 0 0 0 -")
+			emit("init")
+			emit("s call 0 run")
+			h.drain(emit)
+			emit(fmt.Sprintf("s call 1 %s a", first))
+			h.drain(emit)
+			emit("s call 2 shutdown")
+			h.drain(emit)
+			emit("s killto a")
+			h.drain(emit)
+			for i := 0; i < 8 && !h.dead; i++ {
+				al := h.aliveNames()
+				if len(al) == 0 {
+					break
+				}
+				emit(fmt.Sprintf("s exit %s 0", al[0]))
+				h.drain(emit)
+			}
+			if len(h.aliveNames()) == 0 && len(h.enabledKeys()) == 0 {
+				emit("end quiescent")
+			} else {
+				emit("end limit")
+			}
+		}
+	}
+}
+
 func (h *supH) Gen(r *rand.Rand, tier string, emit func(string)) {
 	h.directed(emit)
 	h.directedExit(emit)
+	h.directedStopThenShutdown(emit)
 	scen, maxProcs, maxSteps := 120, 4, 120
 	if tier == "thorough" {
 		scen, maxProcs, maxSteps = 1500, 5, 200
